@@ -71,16 +71,7 @@ def _is_false(expr) -> bool:
     return isinstance(expr, ast.Constant) and expr.value is False
 
 
-def asserted(test, value):
-    """the inequality known to hold once ``test`` evaluated to ``value``"""
-    from .c19 import inequality
-    found = inequality(test)
-    if found is None:
-        return None
-    strict, diff = found
-    if value:
-        return strict, diff
-    return (not strict), tuple(sorted((k, -v) for k, v in diff))
+asserted = rules.asserted
 
 
 def _param_is_none(path, index, name):
